@@ -592,7 +592,41 @@ func runDC(r *runner, work *choice.Source, repair, forceBig bool) (fs []Finding)
 			refMesh = mk(refSolid, refBuf, refGos).Mesh()
 		}
 	}); f != nil {
-		return []Finding{*f}
+		if !strings.HasPrefix(f.Sig, "panic|") {
+			return []Finding{*f}
+		}
+		// The reference configuration itself panics: this solid is outside what the
+		// routine can mesh at all (seen: Repair meets two vertices one ulp apart,
+		// "invalid triangle count").  That is a defect of its own kind, but not a
+		// dependence on the configuration - unless the configuration under test
+		// does return a mesh.  So the variant still runs, and must panic alike.
+		if repair {
+			v.Workers = 1
+		}
+		vf := r.sim(v, func() {
+			if interior {
+				mk(&simsolid.Solid3{S: shape, Salt: salt, YieldEvery: v.YieldEvery}, buf, maxGos).MeshInterior()
+			} else {
+				mk(&simsolid.Solid3{S: shape, Salt: salt, YieldEvery: v.YieldEvery}, buf, maxGos).Mesh()
+			}
+		})
+		if vf != nil && vf.Sig == f.Sig {
+			r.st.Discarded = "dc: the reference configuration and the configuration under test panic alike (" + f.Sig + ")"
+			r.st.probe("dc.panics_in_every_configuration: " + f.Sig)
+			return nil
+		}
+		if repair {
+			// (Repair's path through the mesh follows Go map order - the listed known
+			// finding - so whether it reaches the failing spot may differ between two runs)
+			r.st.Discarded = "dc: Repair panics in one run and not in the other (map order, see dc|repair-repeat)"
+			r.st.probe("dc.repair_panic_depends_on_map_order")
+			return nil
+		}
+		got := "returns a mesh"
+		if vf != nil {
+			got = vf.Sig
+		}
+		return []Finding{{"dc|panic-depends-on-configuration", fmt.Sprintf("%s: the reference configuration panics (%s) but the configuration under test %s\n%s", r.st.Desc, f.Sig, got, f.Msg)}}
 	}
 	want := canon3(refMesh)
 	r.st.Faces = len(want)
